@@ -100,13 +100,31 @@ def get_ranges(headervalue, content_length):
         return None
 
     result = []
-    _bytesunit, byteranges = headervalue.split('=', 1)
+    try:
+        _bytesunit, byteranges = headervalue.split('=', 1)
+    except ValueError:
+        # Not a ranges-specifier at all: ignore the header.
+        return None
     for brange in byteranges.split(','):
-        start, stop = (x.strip() for x in brange.split('-', 1))
+        start, sep, stop = (x.strip() for x in brange.partition('-'))
+        if not sep or not (start or stop) or not all(x.isdigit() for x in (start, stop) if x):
+            # From rfc 7233 sec 2.1:
+            # "A recipient of a byte-range-set that includes one or more
+            # syntactically invalid byte-range-spec values MUST ignore the
+            # header field that includes that byte-range-set."
+            # (Normally, this means return a 200 response containing the
+            # full entity.)
+            return None
         if start:
-            if not stop:
+            start = int(start)
+            if stop:
+                stop = int(stop)
+                if stop < start:
+                    # "A byte-range-spec is invalid if the last-byte-pos
+                    # value is present and less than the first-byte-pos."
+                    return None
+            else:
                 stop = content_length - 1
-            start, stop = list(map(int, (start, stop)))
             if start >= content_length:
                 # From rfc 2616 sec 14.16:
                 # "If the server receives a request (other than one
@@ -117,25 +135,27 @@ def get_ranges(headervalue, content_length):
                 # resource), it SHOULD return a response code of 416
                 # (Requested range not satisfiable)."
                 continue
-            if stop < start:
-                # From rfc 2616 sec 14.16:
-                # "If the server ignores a byte-range-spec because it
-                # is syntactically invalid, the server SHOULD treat
-                # the request as if the invalid Range header field
-                # did not exist. (Normally, this means return a 200
-                # response containing the full entity)."
-                return None
+            # "If the last-byte-pos value is absent, or if the value is
+            # greater than or equal to the current length of the
+            # representation data, the byte range is interpreted as the
+            # remainder of the representation."
+            stop = min(stop, content_length - 1)
             # Prevent duplicate ranges. See Issue #59
             if (start, stop + 1) not in result:
                 result.append((start, stop + 1))
         else:
-            if not stop:
-                # See rfc quote above.
-                return None
-            # Negative subscript (last N bytes)
+            # Suffix range (last N bytes)
+            length = int(stop)
+            if length == 0 or content_length == 0:
+                # "a suffix-byte-range-spec with a non-zero suffix-length"
+                # is what makes a byte-range-set satisfiable.
+                continue
+            # "If the selected representation is shorter than the specified
+            # suffix-length, the entire representation is used."
+            start = max(0, content_length - length)
             # Prevent duplicate ranges. See Issue #59
-            if (content_length - int(stop), content_length) not in result:
-                result.append((content_length - int(stop), content_length))
+            if (start, content_length) not in result:
+                result.append((start, content_length))
 
     # Can we satisfy the requested Range?
     # If we have an exceedingly high standard deviation
